@@ -142,6 +142,28 @@ func (w *world) greetDup(rd *rawDup, frames []*protocol.Frame, pipelined bool) {
 	})
 }
 
+// dupStillOpen reports whether the agent still holds the raw peer's connection
+// open (frames the agent sent meanwhile are drained).
+func (w *world) dupStillOpen(rd *rawDup) bool {
+	if rd.stream == nil || !rd.gotAck {
+		return false
+	}
+	open := false
+	w.m.OnNode(rd.name, "probe-"+rd.name, func() {
+		r := protocol.NewFrameReader(rd.stream)
+		for i := 0; i < 4096; i++ {
+			rd.stream.SetReadDeadline(time.Now().Add(20 * time.Millisecond))
+			_, err := r.Read()
+			if err == nil {
+				continue
+			}
+			open = errors.Is(err, os.ErrDeadlineExceeded)
+			return
+		}
+	})
+	return open
+}
+
 func (rd *rawDup) close() {
 	if rd.conn != nil {
 		rd.conn.Close()
